@@ -14,11 +14,14 @@ package main
 import (
 	"context"
 	"fmt"
+	"io"
 	"runtime"
 	"strings"
 	"sync"
 	"sync/atomic"
+	"time"
 
+	"github.com/buildbarn/bb-storage/pkg/blobstore/buffer"
 	"github.com/buildbarn/bb-storage/pkg/digest"
 
 	"verif/lib/asm"
@@ -59,6 +62,43 @@ func isPrefix(p, j string) bool {
 		}
 	}
 	return true
+}
+
+// eofReader delivers an upload through io.Reader and returns its last bytes
+// together with io.EOF in one call.
+type eofReader struct {
+	u   *asm.Upload
+	pos int
+}
+
+func (r *eofReader) Read(p []byte) (int, error) {
+	u := r.u
+	if r.pos >= len(u.Data) {
+		return 0, io.EOF
+	}
+	end := r.pos + len(p)
+	if end > len(u.Data) {
+		end = len(u.Data)
+	}
+	if u.FailErr != nil && end > u.FailAt {
+		n := 0
+		if u.FailAt > r.pos {
+			n = copy(p, u.Data[r.pos:u.FailAt])
+		}
+		r.pos += n
+		return n, u.FailErr
+	}
+	n := copy(p, u.Data[r.pos:end])
+	r.pos += n
+	if r.pos == len(u.Data) {
+		return n, io.EOF
+	}
+	return n, nil
+}
+
+func (r *eofReader) Close() error {
+	r.u.Closes.Add(1)
+	return nil
 }
 
 type object struct {
@@ -249,7 +289,34 @@ func seq(ctx context.Context, w *run.Worker, c *run.Case) {
 				}
 				u.FailAt, u.FailErr = r.Intn(len(o.data)), asm.ErrInjected
 			}
-			err := s.BA.Put(ctx, d, u.CASBuffer(d))
+			// How the upload reaches the store: a chunk-reader buffer, a
+			// reader whose last bytes arrive together with io.EOF (what a
+			// decompressor does), or one half of a stream clone whose other
+			// half is discarded once the store has started draining its own
+			// (what a mirrored or read-caching composite above the store does).
+			var buf buffer.Buffer = u.CASBuffer(d)
+			var sibling buffer.Buffer
+			shape := r.Intn(4)
+			switch shape {
+			case 1:
+				buf = buffer.NewCASBufferFromReader(d, &eofReader{u: u}, buffer.UserProvided)
+			case 2:
+				buf, sibling = buf.CloneStream()
+			}
+			var err error
+			if sibling != nil {
+				done := make(chan error, 1)
+				go func() { done <- s.BA.Put(ctx, d, buf) }()
+				run.Settle(10 * time.Second)
+				sibling.Discard()
+				err = <-done
+				w.Count("reuploads_as_stream_clone", 1)
+			} else {
+				err = s.BA.Put(ctx, d, buf)
+			}
+			if shape == 1 {
+				w.Count("reuploads_from_reader_with_data_and_eof", 1)
+			}
 			if mode >= 3 {
 				w.Count("reuploads_invalid", 1)
 				if err == nil {
